@@ -11,7 +11,18 @@ from ..effects import TRIE_NODE, STORAGES
 def tables(ctx, u, stmts=None, iters=None, keep=None, env=None, max_paths=60000):
     if iters is None:
         iters = 2 if ctx.tier == 'thorough' else 1
-    ex = ABPE(loop_iters=iters, mutator_names={k[1] for k in ctx.E.mutators}, keep=keep, max_paths=max_paths)
+    from ..consts import const_env, UNKNOWN
+    CE = const_env(ctx)
+    mod = u.module
+
+    def resolver(name):
+        if not (name.isupper() or (name.startswith('_') and name[1:].isupper())) or name in u.params:
+            return None
+        v = CE.get(mod, name)
+        if v is UNKNOWN or isinstance(v, (list, dict)):
+            return None
+        return (v,)
+    ex = ABPE(loop_iters=iters, mutator_names={k[1] for k in ctx.E.mutators}, keep=keep, max_paths=max_paths, const_resolver=resolver)
     rows = ex.run(stmts if stmts is not None else u.node.body, env)
     return rows
 
@@ -406,6 +417,27 @@ def parent_pair(ctx, rr):
     rr.info['pairs'] = n
 
 
+def add_lru_loops(P, al):
+    """(descend loop, append loop, index name, length name) of add_lru, whatever loop statement they use"""
+    loops = [w for w in al.node.body if isinstance(w, (ast.While, ast.For))]
+    desc = [w for w in loops if any(isinstance(c, ast.Call) and isinstance(c.func, ast.Attribute) and c.func.attr == '__ensure_stem_from_siblings' for c in ast.walk(w))]
+    app = [w for w in loops if any(isinstance(c, ast.Call) and any(k.arg == 'stem' for k in c.keywords) for c in ast.walk(w))]
+    if len(desc) != 1 or len(app) != 1 or desc[0] is app[0]:
+        return None
+
+    def idx_len(w):
+        if isinstance(w, ast.While):
+            t = w.test
+            if isinstance(t, ast.Compare) and len(t.ops) == 1 and isinstance(t.ops[0], (ast.Lt, ast.Gt)) and isinstance(t.left, ast.Name) and isinstance(t.comparators[0], ast.Name):
+                return (t.left.id, t.comparators[0].id) if isinstance(t.ops[0], ast.Lt) else (t.comparators[0].id, t.left.id)
+            return None
+        it = w.iter
+        if isinstance(it, ast.Call) and isinstance(it.func, ast.Name) and it.func.id == 'range' and isinstance(w.target, ast.Name) and it.args and isinstance(it.args[-1], ast.Name):
+            return (w.target.id, it.args[-1].id)
+        return None
+    return desc[0], app[0], idx_len(desc[0]), idx_len(app[0])
+
+
 @rule('R-ALLOC')
 def alloc(ctx, rr):
     """trie blocks are allocated only for missing stems; re-adding known data writes nothing"""
@@ -439,9 +471,10 @@ def alloc(ctx, rr):
                 rr.fail(ctx.finding('R-ALLOC', u, (r.calls('write') + r.calls('node'))[0].node, 'the sibling search writes or allocates although the stem was found'))
     # (b) descending existing stems writes only to clear the child-webentity mark
     al = P.method('LRUTrie', 'add_lru')
-    loops = [w for w in P.own(al, ast.While)]
-    if len(loops) < 2:
+    lp_ = add_lru_loops(P, al)
+    if lp_ is None:
         raise AnalysisError('R-ALLOC: add_lru no longer has a descend loop and an append loop')
+    loops = [lp_[0], lp_[1]]
     rows = tables(ctx, al, stmts=loops[0].body, iters=1, keep=lambda n, c: n in ('write', 'flag_can_have_child_webentities', 'node'))
     bad = []
     for r in rows:
@@ -476,20 +509,18 @@ def ancestor_flag(ctx, rr):
     ancestor of the prefix, existing or new"""
     P = ctx.P
     al = P.method('LRUTrie', 'add_lru')
-    loops = [w for w in P.own(al, ast.While)]
-    if len(loops) != 2:
+    lp_ = add_lru_loops(P, al)
+    if lp_ is None:
         raise AnalysisError('R-ANCESTOR-FLAG: add_lru no longer consists of a descend loop and an append loop')
+    loops = [lp_[0], lp_[1]]
     flagp = 'flag_can_have_child_webentities'
     if flagp not in al.params:
         raise AnalysisError('R-ANCESTOR-FLAG: add_lru lost its flag_can_have_child_webentities parameter')
     for li, w in enumerate(loops):
-        t = w.test
-        if not (isinstance(t, ast.Compare) and len(t.ops) == 1 and isinstance(t.ops[0], (ast.Lt, ast.Gt)) and isinstance(t.left, ast.Name)
-                and isinstance(t.comparators[0], ast.Name)):
-            raise AnalysisError('R-ANCESTOR-FLAG: loop test of add_lru is not `index < length`')
-        I, L = t.left.id, t.comparators[0].id
-        if isinstance(t.ops[0], ast.Gt):
-            I, L = L, I
+        il = lp_[2 + li]
+        if il is None:
+            raise AnalysisError('R-ANCESTOR-FLAG: loop of add_lru is neither `while index < length` nor `for index in range(.., length)`')
+        I, L = il
         keep = lambda n, c: n in (flagp, 'can_have_child_webentities', 'write', 'node', 'read_child', 'set_child')
         rows = tables(ctx, al, stmts=w.body, iters=1, keep=keep)
         bad = []
